@@ -489,7 +489,12 @@ impl Reduce {
     ) -> Self {
         // assert!(Split::from_iter(named_exprs.clone()).len()==1);
         let (schema, aggregate) = Reduce::schema_aggregate(named_aggregate, &input);
-        let size = Reduce::size(&input);
+        let size = if group_by.is_empty() {
+            // An aggregation without GROUP BY returns exactly one row, even on an empty input
+            Integer::from_value(1)
+        } else {
+            Reduce::size(&input)
+        };
         Reduce {
             name,
             aggregate,
